@@ -52,7 +52,9 @@ package collect
 //   4. push a sentinel sendableTrace through tracesToSend and wait until its span reaches the
 //      recorder: sendTraces is the single FIFO consumer, so everything queued before it has been
 //      handed to the Transmission;
-//   5. run inspection hooks, resume the workers.
+//   5. run inspection hooks, resume the workers and wait (bounded, best effort) until each has started its
+//      next loop iteration (counted Clock.Now() at the loop top), so that the worker is idle in its select
+//      with this step's instant as loop-start time when the next step advances the clock.
 // A step therefore never overlaps the next one; an event's Step/VTime is the step that caused it.
 //
 // Steps and ticks: worker tickers are created at t0 (the driver never advances before every
@@ -287,6 +289,20 @@ func (c *e1Config) GetSampleCacheConfig() config.SampleCacheConfig {
 	return c.MockConfig.GetSampleCacheConfig()
 }
 
+// e1Clock is the clock handed to the collector: the shared FakeClock, with Now() calls counted. The count is
+// used for schedule shaping only (resume waits until every worker has begun its next loop iteration, whose
+// first action is Clock.Now()), never by an oracle. The driver and the recorder read the FakeClock directly.
+type e1Clock struct {
+	*clockwork.FakeClock
+	nowCalls atomic.Int64
+}
+
+func (c *e1Clock) Now() time.Time {
+	t := c.FakeClock.Now()
+	c.nowCalls.Add(1)
+	return t
+}
+
 type e1Metrics struct {
 	mu       sync.Mutex
 	counters map[string]int64
@@ -446,6 +462,7 @@ type E1 struct {
 	coll      *InMemCollector
 	sf        *sample.SamplerFactory
 	clock     *clockwork.FakeClock
+	cclock    *e1Clock
 	t0        time.Time
 	tick      time.Duration
 	ticksDone int64 // number of send ticks processed so far (tick k is at t0+k·tick)
@@ -521,6 +538,7 @@ func e1Start(tb testing.TB, c E1Config) *E1 {
 	}
 	e := &E1{tb: tb, Cfg: mc, cfgW: &e1Config{MockConfig: mc}, Stress: &E1Stress{}, met: newE1Metrics(), health: &e1Health{},
 		peer: &e1PeerSink{}, clock: clockwork.NewFakeClockAt(e1Epoch), t0: e1Epoch, tick: time.Duration(c.Traces.SendTicker)}
+	e.cclock = &e1Clock{FakeClock: e.clock}
 	e.rec = &e1Recorder{e: e, sentinel: make(chan int64, 4)}
 	e.sf = &sample.SamplerFactory{Config: e.cfgW, Metrics: e.met, Logger: &logger.NullLogger{}}
 	if err := e.sf.Start(); err != nil {
@@ -528,7 +546,7 @@ func e1Start(tb testing.TB, c E1Config) *E1 {
 	}
 	e.coll = &InMemCollector{
 		Config:           e.cfgW,
-		Clock:            e.clock,
+		Clock:            e.cclock,
 		Logger:           &logger.NullLogger{},
 		Tracer:           noop.NewTracerProvider().Tracer("verif"),
 		Health:           e.health,
@@ -710,11 +728,28 @@ func (e *E1) park() bool {
 	return true
 }
 
+// resume releases the parked workers and then lets each of them finish the interrupted loop iteration and
+// begin the next one (its first action is Clock.Now(), which e1Clock counts) BEFORE the driver goes on. A
+// worker is thus back in its select, with the loop-top time of THIS step, when the next step moves the clock —
+// the schedule of an idle worker that sleeps through a deadline. The wait is bounded and best effort: it
+// shapes the schedule, nothing depends on it for correctness (a Now() call by the monitor may end it early).
 func (e *E1) resume() {
+	n := int64(len(e.parked))
+	base := e.cclock.nowCalls.Load()
 	for _, ch := range e.parked {
 		close(ch)
 	}
 	e.parked = nil
+	if n == 0 || e.stopped {
+		return
+	}
+	for i := 0; i < 4000 && e.cclock.nowCalls.Load() < base+n; i++ {
+		if i < 2000 {
+			runtime.Gosched()
+		} else {
+			time.Sleep(10 * time.Microsecond)
+		}
+	}
 }
 
 // sentinel pushes a marker through tracesToSend and waits for it at the recorder.
